@@ -42,9 +42,20 @@ def _tau(x):
     return (s[x >> 24] << 24) | (s[(x >> 16) & 255] << 16) | (s[(x >> 8) & 255] << 8) | s[x & 255]
 
 
-def _t_enc(x):
-    b = _tau(x)
+def _l_enc(b):
     return b ^ _rol(b, 2) ^ _rol(b, 10) ^ _rol(b, 18) ^ _rol(b, 24)
+
+
+def _t_enc(x):
+    """Round transform T = L(tau(x)) straight from the definition (used by selftest)."""
+    return _l_enc(_tau(x))
+
+
+# L is linear over GF(2), so T splits into four byte-indexed tables.
+_T0 = [_l_enc(s << 24) for s in _SBOX]
+_T1 = [_l_enc(s << 16) for s in _SBOX]
+_T2 = [_l_enc(s << 8) for s in _SBOX]
+_T3 = [_l_enc(s) for s in _SBOX]
 
 
 def _t_key(x):
@@ -65,6 +76,16 @@ def _round_keys(key16):
 def _crypt(rks, block16):
     if len(block16) != 16:
         raise ValueError("SM4 block must be 16 bytes, got %d" % len(block16))
+    x0, x1, x2, x3 = _PACK.unpack(block16)
+    t0, t1, t2, t3 = _T0, _T1, _T2, _T3
+    for rk in rks:
+        v = x1 ^ x2 ^ x3 ^ rk
+        x0, x1, x2, x3 = x1, x2, x3, x0 ^ t0[v >> 24] ^ t1[(v >> 16) & 255] ^ t2[(v >> 8) & 255] ^ t3[v & 255]
+    return _PACK.pack(x3, x2, x1, x0)
+
+
+def _crypt_slow(rks, block16):
+    """Same as _crypt but evaluating T from its definition (selftest cross-check)."""
     x0, x1, x2, x3 = _PACK.unpack(block16)
     for rk in rks:
         x0, x1, x2, x3 = x1, x2, x3, x0 ^ _t_enc(x1 ^ x2 ^ x3 ^ rk)
@@ -157,6 +178,11 @@ def selftest(million=False):
     assert sm4_encrypt_block(_KAT_KEY, _KAT_KEY) == _KAT_CT, "SM4 GB/T 32907 example 1 encrypt"
     assert sm4_decrypt_block(_KAT_KEY, _KAT_CT) == _KAT_KEY, "SM4 GB/T 32907 example 1 decrypt"
     n += 2
+    assert _crypt_slow(rks, _KAT_KEY) == _KAT_CT, "SM4 GB/T 32907 example 1 (definition path)"
+    for i in range(16):
+        blk = bytes((37 * i + 11 * j + 5) & 0xFF for j in range(16))
+        assert _crypt(rks, blk) == _crypt_slow(rks, blk), "SM4 table path vs definition path %d" % i
+    n += 17
     assert sm4_cbc_encrypt(_CBC_KEY, _CBC_IV, _CBC_PT) == _CBC_CT, "SM4-CBC example encrypt"
     assert sm4_cbc_decrypt(_CBC_KEY, _CBC_IV, _CBC_CT) == _CBC_PT, "SM4-CBC example decrypt"
     n += 2
